@@ -101,7 +101,12 @@ func (p *wat2cWorker) buildFunc_body(w io.Writer, fn *ast.Func, cRetType string)
 	io.Copy(w, &bufIns)
 
 	// 有些函数最后的位置不是 return, 需要手动清理栈
-	switch tok := stk.LastInstruction().Token(); tok {
+	// 只看函数体最外层的最后一条指令: 嵌套块内部的 return/unreachable 并不意味着函数体到此结束
+	var lastTok token.Token
+	if n := len(fn.Body.List); n > 0 {
+		lastTok = fn.Body.List[n-1].Token()
+	}
+	switch tok := lastTok; tok {
 	case token.INS_RETURN:
 		// 已经处理过了
 	case token.INS_UNREACHABLE:
